@@ -223,6 +223,9 @@ pub struct RespSpec {
     pub pieces: Vec<usize>,
     /// with_data(reader, len) applied afterwards with this body
     pub replace_data: Option<(B, Option<usize>)>,
+    /// apply with_data after this many of the non-constructor headers (None = after all of them)
+    #[serde(default)]
+    pub replace_at: Option<usize>,
 }
 
 impl RespSpec {
@@ -236,6 +239,7 @@ impl RespSpec {
             threshold: None,
             pieces: vec![],
             replace_data: None,
+            replace_at: None,
         }
     }
 }
